@@ -580,9 +580,9 @@ def joblevel_cases(n, rng):
 
 def vast_cases(n, rng):
     """spaces with more sets than a double has integers (2**53) and fewer than a container can hold: nothing can be
-    enumerated; len() and space[i] at chosen indices are compared with C07_getitem's own statement evaluated in exact
-    integer arithmetic by this harness (row-major mixed radix over the operand lengths, right-most operand fastest) —
-    an arithmetic oracle, not the extracted model, which holds its ranges as lists"""
+    enumerated; len() and space[i] at chosen indices are compared, in harness/c07vast.py, with the extracted and proved
+    index arithmetic over the tree of operand LENGTHS (coq/theories/ParamSpaceIdx.v, props/C07xv.v) — the value-list
+    model cannot hold such ranges"""
     for _ in range(n):
         k = rng.choice([2, 2, 3])
         target = rng.choice([2 ** 53 + 1, 2 ** 54, 2 ** 56 + 12345, 2 ** 60, 2 ** 62, 3 * 10 ** 16, 9 * 10 ** 18])
@@ -603,25 +603,6 @@ def vast_cases(n, rng):
         idx = sorted({0, 1, -1, -2, total - 1, total - 2, total // 2, total // 3, 2 ** 53, 2 ** 53 + 1, 2 ** 53 + 2, -(2 ** 53) - 1, total, -total, -total - 1, total + 5}
                      | {rng.randrange(total) for _ in range(6)} | {total - 1 - rng.randrange(min(total, 10 ** 6)) for _ in range(6)})
         yield {"kind": "vast", "names": names, "starts": starts, "lens": lens, "idx": idx, "explicit": rng.random() < 0.5}
-
-
-def vast_expected(case):
-    lens, starts, names = case["lens"], case["starts"], case["names"]
-    total = 1
-    for x in lens:
-        total *= x
-    out = []
-    for i in case["idx"]:
-        j = i + total if i < 0 else i
-        if not (0 <= j < total):
-            out.append([i, "IndexError"])
-            continue
-        vals = {}
-        for nm, st, ln in reversed(list(zip(names, starts, lens))):
-            vals[nm] = st + j % ln
-            j //= ln
-        out.append([i, sorted([nm, "INT", str(v)] for nm, v in vals.items())])
-    return ["vast", total, out]
 
 
 def vast_observe(case):
@@ -687,7 +668,6 @@ class C07(core.PropBase):
         yield from random_cases(40000 if thorough else 2500, rng)
         yield from default_cases(5000 if thorough else 300, rng)
         yield from joblevel_cases(3000 if thorough else 300, rng)
-        yield from vast_cases(400 if thorough else 40, rng)
         yield from raw_cases(6000 if thorough else 400, rng)
         for _ in range(3):
             yield corpus()[-1]
@@ -697,7 +677,7 @@ class C07(core.PropBase):
         return (f"corpus (A*B 2x2 with next() after exhaustion, (A*B,C), (A*B,C*D), A*(B,C)*D, docstring examples, no space); "
                 f"every canonical combination tree with <= {n} leaves x every balanced assignment of leaf lengths "
                 "(free leaves 1..3, association lengths 1,2,3,4,6, forced leaves <= 9) (exhaustive over shapes and lengths; leaf "
-                "representation INT list / INT range expression / FLOAT / STRING / PATH rotated, history script seeded); products of 2-3 range expressions with 2**53 .. 2**63 sets (len and space[i] at boundary / random indices against C07_getitem evaluated in exact arithmetic); "
+                "representation INT list / INT range expression / FLOAT / STRING / PATH rotated, history script seeded); products and nested combinations of 2-4 range expressions with 2**53 .. 2**63 sets (len and space[i] at boundary / random indices against the extracted ParamSpaceIdx.llen / lindex of props/C07xv.v: stream pspaceidx, harness/c07vast.py); "
                 f"random trees with 1..16 leaves, depth <= 5, len <= {MAX_TOTAL}, list and range-expression leaves mixed; absent "
                 "combination with 1..5 parameters; step without a space.  Each case: construction, len, list, obj[i] for i in "
                 "[-len-1, len] and two far indices, one scripted history over up to three iterators (next/index/len, three "
@@ -732,8 +712,6 @@ class C07(core.PropBase):
 
     # -- model
     def requests(self, case):
-        if case["kind"] == "vast":
-            return []
         if case["kind"] == "none":
             sp = "none"
         else:
@@ -744,13 +722,9 @@ class C07(core.PropBase):
         return [["run", False, sp, case["idx"], [list(o) for o in case["ops"]]]]
 
     def model_obs(self, case, replies):
-        if case["kind"] == "vast":
-            return vast_expected(case)
         return de_reply(replies[0])
 
     def spec_obs(self, case):
-        if case["kind"] == "vast":
-            return ["C07_getitem evaluated in exact integer arithmetic (row-major mixed radix)"]
         drv = core.Driver(self.component)
         replies, _ = drv.ask(self.requests(case), self.prelude())
         r = replies[0]
@@ -829,4 +803,8 @@ class C07(core.PropBase):
 PROP = C07()
 
 if __name__ == "__main__":
+    # second stream: spaces of 2**53 .. 2**63 sets against the extracted length-tree arithmetic (ParamSpaceIdx.v;
+    # props/C07xv.v); c07vast imports this module's generators: attach it here, not at import time
+    import c07vast  # noqa: E402
+    PROP.also = [c07vast.PROP]
     sys.exit(core.main(PROP, sys.argv[1:]))
